@@ -200,6 +200,77 @@ def check_case(case, ev=None, scratch=None):
             scratch.clean()
 
 
+DYN_SRC = """import dds
+import sys
+import vlog
+
+VER = {ver}
+
+
+def leaf():
+    vlog.rec('leaf')
+    return ('leaf', VER)
+
+
+def helper():
+    return dds.keep('/out/leaf', leaf)
+
+
+def root():
+    vlog.rec('root')
+    h = getattr(sys.modules[__name__], 'hel' + 'per')   # a call that the static analysis cannot follow
+    return ('root', h())
+"""
+
+
+def check_dynamic_keep(case, ev=None, scratch=None):
+    """A keep reached through a call dds cannot analyse: the evaluation is refused with a DDS error, or the path it
+    kept serves the value it returned - never a returned value with the path left behind."""
+    from ..harness import proc
+
+    own = scratch is None
+    scratch = scratch or common.Scratch("vf-c04")
+    root = scratch.sub()
+    store_dir = scratch.sub()
+    w = proc.Worker()
+    try:
+        mt = 1600000000
+        outcomes = []
+        for i, ver in enumerate(case["versions"]):
+            files = {"pk/__init__.py": "", "pk/m0.py": DYN_SRC.format(ver=ver)}
+            mt += 10
+            if i == 0:
+                for rel, content in files.items():
+                    pth = os.path.join(root, rel)
+                    os.makedirs(os.path.dirname(pth), exist_ok=True)
+                    open(pth, "w").write(content)
+                    os.utime(pth, (mt, mt))
+                w.call("init", root=root, accepted=["pk"], store={"kind": case["store"], "dir": store_dir})
+            else:
+                w.call("write_files", files=files, reload=False, mtime=mt)
+                w.call("call", module="vf.harness.session", func="_reload_present", args=[["pk", "pk.m0"]])
+            r = w.call("eval", module="pk.m0", func="root", style="eval")
+            if r["exc"] is not None:
+                if not r["exc"]["is_dds"]:
+                    raise Violation(f"dynamic keep (version {ver}, store {case['store']}): raised {r['exc']['type']}: {r['exc']['msg'][:200]} (neither a DDS refusal nor a result)", case)
+                outcomes.append("refused")
+                continue
+            if r["value"] != ("root", ("leaf", ver)):
+                raise Violation(f"dynamic keep (version {ver}): returned {r['value']!r}", case)
+            ld = w.call("load", path="/out/leaf")
+            if ld["exc"] is not None or ld["value"] != ("leaf", ver):
+                raise Violation(
+                    f"dynamic keep (version {ver}, store {case['store']}): the evaluation returned {r['value']!r} but the path /out/leaf it kept "
+                    f"serves {ld['exc']['msg'][:120] if ld['exc'] else repr(ld['value'])}", case)
+            outcomes.append("committed")
+        if ev is not None:
+            ev.case(case, True, features=["dynamic-keep:" + "+".join(sorted(set(outcomes)))])
+    finally:
+        w.close()
+        if own:
+            scratch.clean()
+
+
 def same(a, b):
     if isinstance(a, bytearray):
         a = bytes(a)
@@ -212,6 +283,11 @@ def shard(idx, n, tier, seed, count):
     opts = {"exclude": common.open_features(ID), "rets": True}
     try:
         v = common.hyp_drive(history_strategy(opts), lambda c: check_case(c, ev, scratch), seed * 1000 + 400 + idx, count, ev)
+        if v is None and idx < 3:
+            try:
+                check_dynamic_keep({"dyn_keep": True, "store": ["memory", "local", "local-lru"][idx], "versions": [1, 2, 2, 3]}, ev, scratch)
+            except Violation as viol:
+                v = viol
     finally:
         scratch.clean()
     return ev, v
@@ -223,4 +299,7 @@ def run(tier, seed, scale=1.0):
 
 
 def replay(case):
-    check_case(case)
+    if case.get("dyn_keep"):
+        check_dynamic_keep(case)
+    else:
+        check_case(case)
